@@ -29,7 +29,9 @@ qux = shared_library('lib3/deep/qux', files=['qux.c'], includes=[hdrs3], libs=[b
 stat = static_library('bar', files=['bar.c'], includes=[hdrs, hdrs2], libs=[libfoo, baz], link_options=['-Wl,-bar'])
 prog = executable('out/prog', files=['main.c'], libs=[stat, libfoo, baz, qux], includes=[hdrs, hdrs2, hdrs3])
 gen = build_step(['gen.c', 'gen.h'], cmd=['gen', build_step.output, '--', build_step.input], files=['gen.in'])
-prog2 = executable('prog2', files=['main2.c', gen[0]], includes=[gen[1]])
+multi = build_step(['gen/answer.c', 'include/answer.h', 'doc/answer.txt', 'gen/deep/x.txt'],
+                   cmd=['gen', build_step.output, '--', build_step.input], files=['gen.in'])
+prog2 = executable('prog2', files=['main2.c', gen[0], multi[0]], includes=[gen[1], multi[1]])
 copies = copy_files(data, directory='share')
 al = alias('everything', [prog, prog2] + list(copies))
 command('hello', cmd=['echo', 'hi'], environment={'A': '1', 'B': '2', 'C': '3'})
